@@ -646,41 +646,57 @@ def check_r3(facts, rep, crate):
                 rep.bad(rid, "v4::read_request/roles", where, "command/port roles are %s/%s" % (s0, s2))
         else:
             rep.bad(rid, "v4::read_request/roles", where, "result tuple not found")
-        # 4a predicate
-        pred = None
+        # 4a predicate: which DSTIP values reach the second (domain) read_until? Finite-domain abstract evaluation
+        # over representative byte patterns, path-wise (handles `a && b` lowered to nested branches).
+        reps = []
+        for b3 in (0, 1, 255):
+            for b2 in (0, 1, 255):
+                for b1 in (0, 1, 255):
+                    for b0 in (0, 1, 255):
+                        reps.append((b3 << 24) | (b2 << 16) | (b1 << 8) | b0)
+        ru = [bi for bi, t in b.calls() if callee(t) and callee(t)["name"] == "read_until"]
+        ipg = {}
         for bb, g in guards.items():
             if g and g.kind == "bool":
-                p = g.pred
-                rs = role_source(tr, p)
-                if rs and rs[0] == "read_u32" and not any(x.kind == "call" and x[6] == "poll" for x in walk(strip(p)) if False):
-                    if strip(p).kind in ("bin", "call", "un"):
-                        # the guard must select between the domain read and the dotted-quad
-                        pred = (bb, g)
-        if pred is None:
-            rep.bad(rid, "v4::read_request/4a-predicate", where, "no predicate on DSTIP selects the SOCKS4a domain form")
+                rs = role_source(tr, g.pred)
+                if rs and rs[0] == "read_u32" and strip(g.pred).kind in ("bin", "un") and _eval_ip_node(tr, g.pred, 0) is not None:
+                    ipg[bb] = g
+        if not ipg or len(ru) < 2:
+            rep.bad(rid, "v4::read_request/4a-predicate", where, "unrecognised idiom: no evaluable predicate on DSTIP selects the SOCKS4a domain form")
         else:
-            bb, g = pred
-            rep_vals = _eval_ip_pred(tr, g)
-            if rep_vals is None:
-                rep.bad(rid, "v4::read_request/4a-predicate", where, "unrecognised idiom: predicate `%s` not evaluable" % fmt(g.pred))
+            from an import STOP
+            dom_site = ru[-1]
+            reached = set()
+
+            def on_edge(bb, succ, auto, store):
+                g = ipg.get(bb)
+                if g is None:
+                    return auto
+                keep = []
+                for ip in auto:
+                    v = _eval_ip_node(tr, g.pred, ip)
+                    if any(s2 == succ and val == bool(v) for s2, val in g.edges):
+                        keep.append(ip)
+                return frozenset(keep) if keep else STOP
+
+            def on_term(bb, t, auto, store):
+                if bb == dom_site:
+                    reached.update(auto)
+                return auto
+            ex4 = Explorer(facts, b, on_term=on_term, on_edge=on_edge, budget=100000)
+            ex4.run(0, frozenset(reps))
+            rep.paths += len(ex4.seen)
+            want = set(ip for ip in reps if (ip >> 8) == 0 and ip != 0)
+            wrong = sorted((reached - want) | (want - reached))
+            if wrong:
+                def dq(ip):
+                    return "%d.%d.%d.%d" % ((ip >> 24) & 255, (ip >> 16) & 255, (ip >> 8) & 255, ip & 255)
+                gb = sorted(ipg)[0]
+                rep.bad(rid, "v4::read_request/4a-predicate", "%s (%s)" % (loc_str(b.term(gb)["loc"]), b.path),
+                        "SOCKS4a form (domain read) must be selected exactly for DSTIP 0.0.0.x with x != 0; the reader's "
+                        "predicate disagrees for %s%s" % (", ".join(dq(x) for x in wrong[:6]), " ..." if len(wrong) > 6 else ""))
             else:
-                wrong = []
-                for ip, val in rep_vals:
-                    b3, b2, b1, b0 = (ip >> 24) & 255, (ip >> 16) & 255, (ip >> 8) & 255, ip & 255
-                    want_v = (b3 == 0 and b2 == 0 and b1 == 0 and b0 != 0)
-                    if bool(val) != want_v:
-                        wrong.append("%d.%d.%d.%d" % (b3, b2, b1, b0))
-                # which edge leads to the domain read?
-                tsucc = [s for s, v in g.edges if v is True][0]
-                dom_reads = [x for x in b.reachable_from(tsucc, cut={bb}) if callee(b.term(x)) and callee(b.term(x))["name"] == "read_until"]
-                if not dom_reads:
-                    rep.bad(rid, "v4::read_request/4a-predicate", where, "true edge of the DSTIP predicate does not read the domain")
-                elif wrong:
-                    rep.bad(rid, "v4::read_request/4a-predicate", "%s (%s)" % (loc_str(b.term(bb)["loc"]), b.path),
-                            "SOCKS4a form must be selected exactly for DSTIP 0.0.0.x with x != 0; predicate `%s` "
-                            "disagrees for %s%s" % (fmt(g.pred), ", ".join(wrong[:6]), " ..." if len(wrong) > 6 else ""))
-                else:
-                    rep.ok(rid, "v4::read_request/4a-predicate", where, "selects exactly 0.0.0.x, x != 0 on %d representative addresses" % len(rep_vals))
+                rep.ok(rid, "v4::read_request/4a-predicate", where, "domain form selected exactly for 0.0.0.x, x != 0 (%d representative addresses, path-wise)" % len(reps))
     else:
         rep.bad(rid, "v4::read_request", "", "reader not found (anchor missing)")
     # v5::read_auth_methods: read_u8 n then read_exact(n)
@@ -700,50 +716,32 @@ def check_r3(facts, rep, crate):
     rep.floor(rid, "request readers", n, 4)
 
 
-def _eval_ip_pred(tr, g):
-    """Evaluate a predicate over the u32 produced by read_u32 on representative byte patterns."""
-    reps = []
-    for b3 in (0, 1, 255):
-        for b2 in (0, 1, 255):
-            for b1 in (0, 1, 255):
-                for b0 in (0, 1, 255):
-                    reps.append((b3 << 24) | (b2 << 16) | (b1 << 8) | b0)
-
-    def ev(node, ip):
-        n = node
-        while n.kind == "phi" and len(n[1]) == 1:
-            n = n[1][0]
-        if n.kind == "cast":
-            return ev(n[1], ip)
-        if n.kind == "const":
-            return n[1]
-        if n.kind == "un" and n[1] == "Not":
-            v = ev(n[2], ip)
-            return None if v is None else int(not v)
-        if n.kind == "bin":
-            a, c = ev(n[2], ip), ev(n[3], ip)
-            if a is None or c is None:
-                return None
-            op = n[1]
-            try:
-                return {"Shr": a >> c, "Shl": (a << c) & 0xFFFFFFFF, "BitAnd": a & c, "BitOr": a | c, "BitXor": a ^ c,
-                        "Eq": int(a == c), "Ne": int(a != c), "Lt": int(a < c), "Le": int(a <= c),
-                        "Gt": int(a > c), "Ge": int(a >= c), "Sub": a - c, "Add": a + c}.get(op)
-            except Exception:
-                return None
-        rs = role_source(tr, n)
-        if rs and rs[0] == "read_u32":
-            # value of the DSTIP read itself (through await / map_err / ? plumbing)
-            if n.kind in ("field", "downcast", "call", "deref", "ref"):
-                return ip
-        return None
-    out = []
-    for ip in reps:
-        v = ev(g.pred, ip)
-        if v is None:
+def _eval_ip_node(tr, node, ip):
+    """Evaluate an expression over the u32 produced by read_u32 (None when not evaluable)."""
+    n = node
+    while n.kind == "phi" and len(n[1]) == 1:
+        n = n[1][0]
+    if n.kind == "cast":
+        return _eval_ip_node(tr, n[1], ip)
+    if n.kind == "const":
+        return n[1]
+    if n.kind == "un" and n[1] == "Not":
+        v = _eval_ip_node(tr, n[2], ip)
+        return None if v is None else int(not v)
+    if n.kind == "bin":
+        a, c = _eval_ip_node(tr, n[2], ip), _eval_ip_node(tr, n[3], ip)
+        if a is None or c is None:
             return None
-        out.append((ip, v))
-    return out
+        try:
+            return {"Shr": a >> c, "Shl": (a << c) & 0xFFFFFFFF, "BitAnd": a & c, "BitOr": a | c, "BitXor": a ^ c,
+                    "Eq": int(a == c), "Ne": int(a != c), "Lt": int(a < c), "Le": int(a <= c),
+                    "Gt": int(a > c), "Ge": int(a >= c), "Sub": a - c, "Add": a + c}.get(n[1])
+        except Exception:
+            return None
+    rs = role_source(tr, n)
+    if rs and rs[0] == "read_u32" and n.kind in ("field", "downcast", "call", "deref", "ref"):
+        return ip
+    return None
 
 
 # ------------------------------------------------------------------ R5 terminators
